@@ -494,6 +494,12 @@ def make_registry_case(case_seed: str, tier: str, k: int):
         ms = {g: {"zeta": m1[g], "alpha": m2[g]} for g in group}     # insertion order ≠ sorted order on purpose
         counts = {g: [len(h1[g]), len(h2[g])] for g in group}
         named = [("zeta", cfg, h1), ("alpha", cfg2, h2)]
+        if rng.random() < 0.35:
+            # the SAME metric object registered under a second name (e.g. "loss" and "epoch/loss"): every entry of the
+            # synced collection is still that metric merged with the other ranks' — once
+            for g in group:
+                ms[g]["zeta_again"] = m1[g]
+            named.append(("zeta_again", cfg, h1, "zeta"))
     make_registry_case.last_record = registry_record(named, group)
     return spec, cfg, world, group, entry, ms, counts
 
@@ -501,7 +507,8 @@ def make_registry_case(case_seed: str, tier: str, k: int):
 def registry_record(named, group):
     """replayable content of a registry case: per member, per metric (in the collection's insertion order; name None = the single
     metric form) the public configuration and the update history (every batch with its tensors' dtype and shape)"""
-    return {str(g): [{"name": name, "cfg": public_cfg(cfg), "history": [b.describe() for b in hist[g]]} for name, cfg, hist in named] for g in group}
+    return {str(g): [{"name": ent[0], "cfg": public_cfg(ent[1]), "history": [b.describe() for b in ent[2][g]],
+                      **({"alias_of": ent[3]} if len(ent) > 3 else {})} for ent in named] for g in group}
 
 
 def metrics_from_record(spec: Spec, ranks: dict, group):
@@ -511,6 +518,9 @@ def metrics_from_record(spec: Spec, ranks: dict, group):
     for g in group:
         built = []
         for ent in ranks[str(g)]:
+            if ent.get("alias_of") is not None:        # the same object under a second name
+                built.append((ent["name"], dict(built)[ent["alias_of"]]))
+                continue
             m = new_metric(spec, dict(ent["cfg"]))
             for d in ent["history"]:
                 Batch.from_describe(d).apply(m)
